@@ -11,9 +11,21 @@
 //! `Result<Array<T>, ArrayError>`) under the same one of `{}` `{:#}` `{:.N}` `{:#.N}`; 16 element types incl. value classes; `disp_big_shapes()`
 //! (rows of 1001..2000 elements, more than 1000 rows, totals above 1000 from short rows) and `zero_shapes()`; typed value -> text -> value
 //! round trips of Tuple2/Tuple3/List over every primitive component type; literals of every primitive element type and of big shapes in `c18_gen`.
+//! Part-2 robustness streams (FRAMEWORK.md 6-10): `seq <case> | <case> | …` = cases executed back to back on one thread, each judged like a
+//! single case (an array followed by a same-shape rearrangement of its elements, colliding shapes, different element types, a refused
+//! text followed by a valid one); every case A is re-run after the next case B (A-B-A); every array is rendered twice and once more after
+//! being rebuilt through `FromIterator`/`reshape`/`clone_from`; precisions 0..20 and 31 … 65535 (256, 300, 1074 …); rows of 8191 … 70000
+//! elements and `huge_shapes()` (the model's `display` and literal parse-back are linear: 120 000 elements in about 1 s, so the model itself
+//! answers these); ranks 5..8; every printable ASCII character as char / String element and tuple / list component.
 use arrharness::*;
+use std::cell::RefCell;
 use std::fmt::{Debug, Display};
 use std::str::FromStr;
+use std::sync::atomic::{AtomicUsize, Ordering::Relaxed};
+
+static N_ABA: AtomicUsize = AtomicUsize::new(0);          // A-B-A re-runs
+static N_TWICE: AtomicUsize = AtomicUsize::new(0);        // arrays rendered a second time / rebuilt and rendered
+static N_HUGE: AtomicUsize = AtomicUsize::new(0);         // text forms of more than 8192 elements compared with the model
 
 mod c18_gen;
 use c18_gen::{CTORS, LITS};
@@ -157,43 +169,70 @@ fn fmt_spec<D: Display>(d: &D, prec: Option<usize>, alt: bool) -> String {
     }
 }
 
-/// element texts (by the element type's own `Display`), the text form of the plain `Array<T>` receiver, and the text form of
-/// the `Result<Array<T>, ArrayError>` receiver (`PrintableResult { result: Ok(array) }`) under the same format specification
-/// `render`: 0 = element texts only (generator), 1 = plain receiver only, 2 = both receivers
-fn disp_with<T: ArrayElement>(elems: Vec<T>, shape: &[usize], prec: Option<usize>, alt: bool, render: u8) -> (Vec<String>, String, String) {
+/// element texts (by the element type's own `Display`), the text form of the plain `Array<T>` receiver, the text form of
+/// the `Result<Array<T>, ArrayError>` receiver (`PrintableResult { result: Ok(array) }`) under the same format specification, and a
+/// description of any divergence between that text and (a) the same array object rendered a second time, (b) an equal array rebuilt through
+/// `IntoIterator`/`filter`/`FromIterator` + `reshape` + `clone_from` (empty = none)
+/// `render`: 0 = element texts only (generator), 1 = plain receiver only, 2 = everything
+fn disp_with<T: ArrayElement>(elems: Vec<T>, shape: &[usize], prec: Option<usize>, alt: bool, render: u8) -> (Vec<String>, String, String, String) {
     let texts: Vec<String> = elems.iter().map(|e| fmt_prec(e, prec)).collect();
-    if render == 0 { return (texts, String::new(), String::new()); }
+    if render == 0 { return (texts, String::new(), String::new(), String::new()); }
     let e2 = if render == 2 { elems.clone() } else { vec![] };
-    let shown = guarded(|| fmt_spec(&Array::new(elems, shape.to_vec()).expect("harness: display subject"), prec, alt));
-    let wrapped = if render == 2 { guarded(|| fmt_spec(&PrintableResult { result: Array::new(e2, shape.to_vec()) }, prec, alt)) } else { String::new() };
-    (texts, shown, wrapped)
+    let arr = Array::new(elems, shape.to_vec()).expect("harness: display subject");
+    let shown = guarded(|| fmt_spec(&arr, prec, alt));
+    if render != 2 { return (texts, shown, String::new(), String::new()); }
+    let wrapped = guarded(|| fmt_spec(&PrintableResult { result: Array::new(e2.clone(), shape.to_vec()) }, prec, alt));
+    let mut side = String::new();
+    N_TWICE.fetch_add(1, Relaxed);
+    let again = guarded(|| fmt_spec(&arr, prec, alt));
+    if again != shown { side = format!("the same array rendered a second time gives `{}`", truncate(&again, 600)); }
+    else if !e2.is_empty() && e2.len() <= 20000 {
+        let rebuilt = std::panic::catch_unwind(std::panic::AssertUnwindSafe(|| -> Option<String> {
+            let c = e2.iter().cloned().filter(|_| true).collect::<Array<T>>().reshape(shape).ok()?;
+            let mut b: Array<T> = Array::new(vec![e2[0].clone()], vec![1]).ok()?;
+            b.clone_from(&c);
+            if b.get_shape().ok()? != shape { return None; }
+            Some(fmt_spec(&b, prec, alt))
+        }));
+        if let Ok(Some(t)) = rebuilt { if t != shown { side = format!("an equal array built by collect() + reshape + clone_from renders `{}`", truncate(&t, 600)); } }
+    }
+    (texts, shown, wrapped, side)
 }
 
 const F64X: [f64; 12] = [-0.0, 5e-324, 1e300, 0.1, f64::MAX, f64::MIN_POSITIVE, 9007199254740993.0, f64::INFINITY, f64::NEG_INFINITY, f64::NAN, 0.30000000000000004, -1e-7];
 const F32X: [f32; 8] = [0.1, 16777216.0, -0.0, f32::MAX, 1e-45, 1.5, f32::NAN, -2.75];
 const BLANKY: [&str; 8] = ["new york", "", " ", "a b c", "x", " lead", "trail ", "mid  dle"];
 
-fn disp_subject(ty: &str, shape: &[usize], prec: Option<usize>, alt: bool, render: u8) -> Option<(Vec<String>, String, String)> {
+/// `ty` may carry a rearrangement of the elements: `i32~x` (the elements of the transpose poured into the same shape; rank != 2: reversed),
+/// `~r` reversed, `~t` rotated by one, `~s` first and last swapped — same shape, same multiset of elements, other places
+fn disp_subject(ty: &str, shape: &[usize], prec: Option<usize>, alt: bool, render: u8) -> Option<(Vec<String>, String, String, String)> {
     let n: usize = shape.iter().product();
     let sgn = |k: usize| if k % 3 == 1 { -1i32 } else { 1 };
+    let (ty, var) = match ty.split_once('~') { Some((b, v)) => (b, v), None => (ty, "") };
+    if !["", "x", "r", "t", "s"].contains(&var) { return None; }
+    let km = |k: usize| -> usize { match var {
+        "x" if shape.len() == 2 => { let (r, c) = (shape[0], shape[1]); (k % c) * r + k / c }
+        "r" | "x" => n - 1 - k, "t" => (k + 1) % n, "s" => if k == 0 { n - 1 } else if k == n - 1 { 0 } else { k }, _ => k } };
     Some(match ty {
-        "i32" => disp_with((0..n).map(|k| (k as i32 + 1) * sgn(k)).collect(), shape, prec, alt, render),
-        "f64" => disp_with((0..n).map(|k| (k as f64 + 1.0) * 0.375 * sgn(k) as f64).collect(), shape, prec, alt, render),
-        "bool" => disp_with((0..n).map(|k| k % 3 != 1).collect::<Vec<bool>>(), shape, prec, alt, render),
-        "char" => disp_with((0..n).map(|k| (b'a' + (k * 5 % 26) as u8) as char).collect::<Vec<char>>(), shape, prec, alt, render),
-        "String" => disp_with((0..n).map(|k| if k % 4 == 2 { format!("w {k}") } else { format!("s{k}") }).collect::<Vec<String>>(), shape, prec, alt, render),
-        "T2" => disp_with((0..n).map(|k| Tuple2(k as i32 * sgn(k), k as f64 * 0.5)).collect::<Vec<_>>(), shape, prec, alt, render),
-        "List" => disp_with((0..n).map(|k| List((0..k % 3).map(|j| (k + j) as i32).collect())).collect::<Vec<_>>(), shape, prec, alt, render),
+        "charx" => disp_with((0..n).map(&km).map(|k| (32 + (k % 95) as u8) as char).collect::<Vec<char>>(), shape, prec, alt, render),
+        "Stringx" => disp_with((0..n).map(&km).map(|k| format!("{}{}", (32 + (k * 7 % 95) as u8) as char, if k % 2 == 0 { "" } else { "z" })).collect::<Vec<String>>(), shape, prec, alt, render),
+        "i32" => disp_with((0..n).map(&km).map(|k| (k as i32 + 1) * sgn(k)).collect(), shape, prec, alt, render),
+        "f64" => disp_with((0..n).map(&km).map(|k| (k as f64 + 1.0) * 0.375 * sgn(k) as f64).collect(), shape, prec, alt, render),
+        "bool" => disp_with((0..n).map(&km).map(|k| k % 3 != 1).collect::<Vec<bool>>(), shape, prec, alt, render),
+        "char" => disp_with((0..n).map(&km).map(|k| (b'a' + (k * 5 % 26) as u8) as char).collect::<Vec<char>>(), shape, prec, alt, render),
+        "String" => disp_with((0..n).map(&km).map(|k| if k % 4 == 2 { format!("w {k}") } else { format!("s{k}") }).collect::<Vec<String>>(), shape, prec, alt, render),
+        "T2" => disp_with((0..n).map(&km).map(|k| Tuple2(k as i32 * sgn(k), k as f64 * 0.5)).collect::<Vec<_>>(), shape, prec, alt, render),
+        "List" => disp_with((0..n).map(&km).map(|k| List((0..k % 3).map(|j| (k + j) as i32).collect())).collect::<Vec<_>>(), shape, prec, alt, render),
         // value classes: the borders of the byte-sized types, integers beyond 2^53, -0.0 / subnormal / NaN / infinities
-        "u8" => disp_with((0..n).map(|k| [255u8, 0, 254, 128, 127, 1, 200][k % 7].wrapping_sub((k / 7) as u8)).collect::<Vec<u8>>(), shape, prec, alt, render),
-        "i8" => disp_with((0..n).map(|k| [-128i8, 127, 0, -1, 100][k % 5].wrapping_add((k / 5) as i8)).collect::<Vec<i8>>(), shape, prec, alt, render),
-        "i64" => disp_with((0..n).map(|k| [9007199254740993i64, -9007199254740993, i64::MAX, i64::MIN, 0, 4294967296][k % 6].wrapping_add((k / 6) as i64 * sgn(k) as i64)).collect::<Vec<i64>>(), shape, prec, alt, render),
-        "u64" => disp_with((0..n).map(|k| [u64::MAX, 9007199254740993, 0, 1 << 63][k % 4].wrapping_sub((k / 4) as u64)).collect::<Vec<u64>>(), shape, prec, alt, render),
-        "usize" => disp_with((0..n).map(|k| [usize::MAX, 0, 1001, 4096][k % 4].wrapping_sub(k / 4)).collect::<Vec<usize>>(), shape, prec, alt, render),
-        "f32" => disp_with((0..n).map(|k| F32X[k % 8] * (1 + k / 8) as f32).collect::<Vec<f32>>(), shape, prec, alt, render),
-        "f64x" => disp_with((0..n).map(|k| F64X[k % 12] * (1 + k / 12) as f64).collect::<Vec<f64>>(), shape, prec, alt, render),
-        "T3s" => disp_with((0..n).map(|k| Tuple3(BLANKY[k % 8].to_string(), k as i32 * sgn(k), F64X[(k / 8) % 12])).collect::<Vec<_>>(), shape, prec, alt, render),
-        "ListS" => disp_with((0..n).map(|k| List((0..k % 3).map(|j| BLANKY[(k + j) % 8].to_string()).collect())).collect::<Vec<_>>(), shape, prec, alt, render),
+        "u8" => disp_with((0..n).map(&km).map(|k| [255u8, 0, 254, 128, 127, 1, 200][k % 7].wrapping_sub((k / 7) as u8)).collect::<Vec<u8>>(), shape, prec, alt, render),
+        "i8" => disp_with((0..n).map(&km).map(|k| [-128i8, 127, 0, -1, 100][k % 5].wrapping_add((k / 5) as i8)).collect::<Vec<i8>>(), shape, prec, alt, render),
+        "i64" => disp_with((0..n).map(&km).map(|k| [9007199254740993i64, -9007199254740993, i64::MAX, i64::MIN, 0, 4294967296][k % 6].wrapping_add((k / 6) as i64 * sgn(k) as i64)).collect::<Vec<i64>>(), shape, prec, alt, render),
+        "u64" => disp_with((0..n).map(&km).map(|k| [u64::MAX, 9007199254740993, 0, 1 << 63][k % 4].wrapping_sub((k / 4) as u64)).collect::<Vec<u64>>(), shape, prec, alt, render),
+        "usize" => disp_with((0..n).map(&km).map(|k| [usize::MAX, 0, 1001, 4096][k % 4].wrapping_sub(k / 4)).collect::<Vec<usize>>(), shape, prec, alt, render),
+        "f32" => disp_with((0..n).map(&km).map(|k| F32X[k % 8] * (1 + k / 8) as f32).collect::<Vec<f32>>(), shape, prec, alt, render),
+        "f64x" => disp_with((0..n).map(&km).map(|k| F64X[k % 12] * (1 + k / 12) as f64).collect::<Vec<f64>>(), shape, prec, alt, render),
+        "T3s" => disp_with((0..n).map(&km).map(|k| Tuple3(BLANKY[k % 8].to_string(), k as i32 * sgn(k), F64X[(k / 8) % 12])).collect::<Vec<_>>(), shape, prec, alt, render),
+        "ListS" => disp_with((0..n).map(&km).map(|k| List((0..k % 3).map(|j| BLANKY[(k + j) % 8].to_string()).collect())).collect::<Vec<_>>(), shape, prec, alt, render),
         _ => return None,
     })
 }
@@ -292,7 +331,7 @@ fn bracket_parse(s: &str) -> Option<(Vec<usize>, Vec<String>)> {
 
 // ---------------------------------------------------------------- generator
 
-fn gen(tier: &str, seed: u64, out: &mut dyn FnMut(String)) {
+fn gen_base(tier: &str, seed: u64, out: &mut dyn FnMut(String)) {
     let thorough = tier == "thorough";
     let mut rng = Rng::new(seed);
     // (ii-a) the compiled literal programs — fixed set; the Debug text is evaluated now, by the same `vec![…]` expression
@@ -309,7 +348,7 @@ fn gen(tier: &str, seed: u64, out: &mut dyn FnMut(String)) {
         for ty in DISP_TYPES {
             for prec in ["none", "0", "2"] { for alt in [0, 1] {
                 let p = if prec == "none" { None } else { Some(prec.parse::<usize>().unwrap()) };
-                let (texts, _, _) = disp_subject(ty, s, p, alt == 1, 0).unwrap();
+                let (texts, _, _, _) = disp_subject(ty, s, p, alt == 1, 0).unwrap();
                 out(format!("disp {} {} {} {} {}", alt, show_list(s), enc_list(&texts), ty, prec));
             } }
         }
@@ -320,7 +359,7 @@ fn gen(tier: &str, seed: u64, out: &mut dyn FnMut(String)) {
     //   more than 1000 rows, totals above 1000 from short rows; zero-length axes; every element type incl. value classes
     let disp_case = |ty: &str, s: &[usize], prec: &str, alt: usize, out: &mut dyn FnMut(String)| {
         let p = if prec == "none" { None } else { Some(prec.parse::<usize>().unwrap()) };
-        let (texts, _, _) = disp_subject(ty, s, p, alt == 1, 0).unwrap();
+        let (texts, _, _, _) = disp_subject(ty, s, p, alt == 1, 0).unwrap();
         out(format!("disp {} {} {} {} {}", alt, show_list(s), enc_list(&texts), ty, prec));
     };
     for (i, s) in disp_big_shapes().iter().enumerate() {
@@ -432,9 +471,147 @@ fn gen(tier: &str, seed: u64, out: &mut dyn FnMut(String)) {
     for w in words(&['[', ']', ',', 'a', '"', '\\', 'n'], if thorough { 6 } else { 4 }) { out(format!("rt string {}", enc(&w))); }
 }
 
+// ---------------------------------------------------------------- part-2 robustness streams
+
+fn disp_line(ty: &str, s: &[usize], prec: &str, alt: usize) -> String {
+    let p = if prec == "none" { None } else { Some(prec.parse::<usize>().unwrap()) };
+    let (texts, _, _, _) = disp_subject(ty, s, p, alt == 1, 0).unwrap();
+    format!("disp {} {} {} {} {}", alt, show_list(s), enc_list(&texts), ty, prec)
+}
+fn seq_line(parts: &[String]) -> String { format!("seq {}", parts.join(" | ")) }
+
+/// the `rt` / `shape` lines of one shape (the block of the base generator, for further shapes)
+fn front_end_lines(s: &[usize], rng: &mut Rng, out: &mut dyn FnMut(String)) {
+    let n: usize = s.iter().product();
+    for kind in ["generic", "tuple2", "tuple3", "list", "char", "string"] {
+        let leaves: Vec<String> = (0..n).map(|k| rt_leaf(kind, k, rng)).collect();
+        let wraps = match kind { "tuple2" | "tuple3" => 2, _ => 1 };
+        let mut ns = vec![1; wraps]; ns.extend(s.iter());
+        let text = format!("{:?}", build_nested(&ns, &leaves));
+        if kind == "generic" { out(format!("shape {} {}", s.len(), enc(&text.replace("\", \"", "\",\"").replace("], [", "],[")))); }
+        else { out(format!("rt {} {}", kind, enc(&text))); }
+    }
+}
+
+const COMBOS: [(&str, usize); 6] = [("none", 0), ("2", 1), ("none", 1), ("2", 0), ("0", 0), ("0", 1)];
+const DISP_TYPES_X: [&str; 2] = ["charx", "Stringx"];
+
+fn gen_r3(tier: &str, seed: u64, out: &mut dyn FnMut(String)) {
+    let thorough = tier == "thorough";
+    let mut rng = Rng::new(seed ^ 0x18_0003);
+    let mut t = 0usize;
+    let all_types: Vec<&str> = DISP_TYPES.iter().chain(DISP_TYPES_X.iter()).cloned().collect();
+
+    // ---- stream 8a: exact precisions.  0..20, then around every power of two up to 4096, 300, 1000, 1074 (exact expansion of 5e-324), 1075
+    let precs: Vec<usize> = (0..=20usize).chain([31, 32, 33, 63, 64, 65, 100, 127, 128, 129, 200, 253, 254, 255, 256, 257, 258, 300, 511, 512, 513, 1000, 1023, 1024, 1074, 1075, 1100, 4095, 4096]).collect();
+    for &p in &precs {
+        let ps = p.to_string();
+        let shapes: Vec<(Vec<usize>, usize)> = if p <= 20 { vec![(vec![3], 0), (vec![2, 2], 1), (vec![2, 1, 3], 0), (vec![2, 3], 1)] } else { vec![(vec![2], 0), (vec![2, 2], 1), (vec![1, 3], 0)] };
+        for ty in ["f64", "f64x", "f32", "T2", "T3s"] { for (s, alt) in &shapes { out(disp_line(ty, s, &ps, *alt)); } }
+        t += 1; let other = all_types[t % all_types.len()];
+        for (s, alt) in &shapes { out(disp_line(other, s, &ps, 1 - *alt)); }
+    }
+    for p in ["1", "3", "5", "255", "256", "300", "1074"] { for ty in &all_types { out(disp_line(ty, &[2, 2], p, 0)); out(disp_line(ty, &[3], p, 1)); } }
+    for p in ["32767", "32768", "65535"] { for ty in ["f64", "f32", "f64x"] { out(disp_line(ty, &[2], p, 0)); if thorough { out(disp_line(ty, &[2, 1], p, 1)); } } }
+
+    // ---- stream 7: rows of 8191 .. 70000 elements (a blocked row renderer), many rows, `huge_shapes()`; the model itself answers (linear)
+    let mut rows: Vec<Vec<usize>> = vec![vec![8191], vec![8192], vec![8193], vec![8194], vec![10000], vec![16384], vec![16385], vec![2, 8193], vec![2, 10000], vec![1, 1, 8193],
+        vec![8193, 1], vec![8193, 2], vec![24577], vec![3, 2, 20011]];
+    rows.extend(huge_shapes());
+    for (i, s) in rows.iter().enumerate() {
+        let n: usize = s.iter().product();
+        if s[0] > 20000 && !thorough { continue; }            // 70000 rows: the crate splits rows quadratically (thorough tier only)
+        let k = if thorough { 4 } else if n <= 20100 { 4 } else { 2 };
+        for (prec, alt) in COMBOS.iter().take(k) { out(disp_line("i32", s, prec, *alt)); }
+        let others = if thorough { 3 } else { 1 };
+        for j in 0..others { let ty = DISP_TYPES[1 + (i * 3 + j) % 15]; let (prec, alt) = COMBOS[(i + j) % 4]; out(disp_line(ty, s, prec, alt)); }
+    }
+
+    // ---- stream 10: ranks 5..8, text form and run-time front ends
+    let high: Vec<Vec<usize>> = vec![vec![1, 2, 1, 2, 1], vec![2, 2, 2, 2, 2], vec![1, 2, 1, 2, 1, 2], vec![2, 1, 1, 1, 1, 2], vec![1, 1, 1, 1, 1, 1, 1, 1], vec![2, 1, 2, 1, 2, 1, 2, 1],
+        vec![2, 2, 2, 2, 2, 2, 2, 2], vec![3, 1, 2, 1, 1, 2, 1, 2], vec![1, 1, 1, 1, 1, 1, 3], vec![2, 3, 1, 1, 2, 2]];
+    for (i, s) in high.iter().enumerate() {
+        for (j, ty) in all_types.iter().enumerate() { for c in 0..(if thorough { 6 } else { 2 }) { let (prec, alt) = COMBOS[(i + j + c * 2) % 6]; out(disp_line(ty, s, prec, alt)); } }
+        front_end_lines(s, &mut rng, out);
+    }
+
+    // ---- stream 8b: every printable ASCII character as char element, one-character String, tuple component and list item
+    for c in (32u8..127).map(|b| b as char) {
+        let cd = format!("{:?}", c);
+        for (shape, leaves) in [(vec![1usize, 1], vec![cd.clone()]), (vec![1, 3], vec!["'a'".to_string(), cd.clone(), "'b'".to_string()]), (vec![1, 2, 2], vec![cd.clone(), "'x'".to_string(), cd.clone(), cd.clone()])] {
+            out(format!("rt char {}", enc(&format!("{:?}", build_nested(&shape, &leaves)))));
+        }
+        let (s1, s2) = (format!("{:?}", c.to_string()), format!("{:?}", format!("a{c}b")));
+        for (shape, leaves) in [(vec![1usize, 1], vec![s1.clone()]), (vec![1, 3], vec![s2.clone(), s1.clone(), "\"q\"".to_string()]), (vec![1, 2, 2], vec![s1.clone(), s2.clone(), s2.clone(), s1.clone()])] {
+            out(format!("rt string {}", enc(&format!("{:?}", build_nested(&shape, &leaves)))));
+        }
+        let (a, b) = (c.to_string(), format!("x{c}"));
+        out(format!("t2show {} {}", enc(&a), enc(&b))); out(format!("t2rt {} {}", enc(&a), enc(&b))); out(format!("t2rt {} {}", enc(&b), enc(&a)));
+        out(format!("t3show {} {} {}", enc(&a), enc(&b), enc(&a))); out(format!("t3rt {} {} {}", enc(&b), enc(&a), enc(&b)));
+        out(format!("lshow {}", enc_list(&[a.clone(), b.clone()]))); out(format!("lrt {}", enc_list(&[a.clone(), b.clone()]))); out(format!("lrt {}", enc_list(&[b.clone()])));
+        out(format!("t2rt_t 5 {} {}", enc(&a), enc("7"))); out(format!("t2rt_t 8 {} {}", enc(&b), enc(&a)));
+        out(format!("lrt_t 7 {}", enc_list(&[a.clone()]))); out(format!("lrt_t 7 {}", enc_list(&[a.clone(), "k".to_string(), a.clone()])));
+        out(format!("lrt_t 6 {}", enc_list(&[b.clone(), a.clone()])));
+    }
+    for ty in DISP_TYPES_X { for s in [vec![95usize], vec![5, 19], vec![2, 3], vec![190]] { for (prec, alt) in COMBOS { out(disp_line(ty, &s, prec, alt)); } } }
+
+    // ---- stream 6a: hidden state keyed by shape + a fingerprint of the values: an array, DIRECTLY followed by the same shape with the same
+    // elements in other places (transposed / reversed / rotated / swapped), then the array again
+    let rshapes: Vec<Vec<usize>> = vec![vec![4], vec![16], vec![17], vec![4, 4], vec![3, 6], vec![5, 5], vec![2, 2, 4], vec![64], vec![100], vec![2, 50], vec![1001], vec![9, 9]];
+    for (i, s) in rshapes.iter().enumerate() { for (j, ty) in all_types.iter().enumerate() { for (v, var) in ["x", "r", "t", "s"].iter().enumerate() {
+        if !thorough && s.iter().product::<usize>() > 100 && (i + j + v) % 3 != 0 { continue; }
+        let (prec, alt) = COMBOS[(i + j + v) % 4];
+        let (a, b) = (disp_line(ty, s, prec, alt), disp_line(&format!("{ty}~{var}"), s, prec, alt));
+        if a != b { out(seq_line(&[a.clone(), b, a])); }
+    } } }
+    // ---- stream 6b: shapes that collide under weak polynomial hashes, back to back in both orders
+    for (s1, s2) in collision_shape_pairs() {
+        t += 1; let ty = all_types[t % all_types.len()]; let (prec, alt) = COMBOS[t % 4];
+        let (a, b) = (disp_line(ty, &s1, prec, alt), disp_line(ty, &s2, prec, alt));
+        out(seq_line(&[a.clone(), b.clone(), a, b]));
+    }
+    // ---- stream 6d: the same shape through different element types back to back
+    for s in [vec![3usize], vec![2, 3], vec![4, 4], vec![17], vec![2, 2, 2]] { for (prec, alt) in COMBOS.iter().take(4) {
+        let tys = ["i32", "f64", "u8", "String", "bool", "i64", "char", "f32", "i32", "T2", "List", "i32"];
+        out(seq_line(&tys.iter().map(|ty| disp_line(ty, &s, prec, *alt)).collect::<Vec<_>>()));
+    } }
+    // ---- stream 6c: a refused text directly followed by a valid one (front ends, shape parser, tuple / list parsers, the Err side of the wrapper)
+    let bads = ["", "[", "]", "[[1]", "[1]]", "[(1]", "[\"1]", ",", "(1", "[1,"];
+    for kind in ["tuple2", "tuple2i", "tuple3", "list", "listi", "char", "string"] {
+        let leaf_kind = match kind { "tuple2i" => "tuple2", "listi" => "list", k => k };
+        for (i, bad) in bads.iter().enumerate() {
+            if kind.starts_with("tuple") && bad.contains(")(") { continue; }
+            let wraps = if kind.starts_with("tuple") { 2 } else { 1 };
+            let mk = |s: &[usize], rng: &mut Rng| { let n: usize = s.iter().product(); let leaves: Vec<String> = (0..n).map(|k| if kind == "tuple2i" { format!("({}, {})", k, k + 1) } else if kind == "listi" { format!("[{}, {}]", k, k + 2) } else { rt_leaf(leaf_kind, k, rng) }).collect();
+                let mut ns = vec![1; wraps]; ns.extend(s.iter()); format!("rt {kind} {}", enc(&format!("{:?}", build_nested(&ns, &leaves)))) };
+            let (g1, g2) = (mk(&[2, 2], &mut rng), mk(&[3], &mut rng));
+            let b1 = format!("rt {kind} {}", enc(bad)); let b2 = format!("rt {kind} {}", enc(bads[(i + 3) % bads.len()]));
+            out(seq_line(&[b1, g1.clone(), b2, g2, g1]));
+        }
+    }
+    for bad in bads {
+        out(seq_line(&[format!("shape 2 {}", enc(bad)), format!("shape 2 {}", enc("[[1,2],[3,4]]")), format!("shape 1 {}", enc(bad)), format!("shape 1 {}", enc("[1,2,3]")), format!("shape 2 {}", enc("[[1,2],[3,4]]"))]));
+        out(seq_line(&[format!("t2parse {}", enc(bad)), format!("t2parse {}", enc("(1, 2)")), format!("lparse {}", enc(bad)), format!("lparse {}", enc("[1, 2]")), format!("t3parse {}", enc(bad)), format!("t3parse {}", enc("(1, 2, 3)"))]));
+    }
+    for e in 0..4 { let (prec, alt) = COMBOS[e]; out(seq_line(&[disp_line("i32", &[2, 2], prec, alt), format!("disperr {e} {alt} {prec}"), disp_line("i32", &[2, 2], prec, alt), disp_line("f64", &[3], prec, alt)])); }
+}
+
+fn gen(tier: &str, seed: u64, out: &mut dyn FnMut(String)) {
+    // the streams of rounds 1 and 2, unchanged, then the part-2 streams.  Two `tally` lines: one placed where the summary's sampler
+    // picks its last sample (so the counters show in the evidence file), one at the very end
+    let mut lines: Vec<String> = vec![];
+    gen_base(tier, seed, &mut |l| lines.push(l));
+    gen_r3(tier, seed, &mut |l| lines.push(l));
+    let n = lines.len() + 2;
+    let pos = (11 * (n / 12).max(1)).min(lines.len());
+    lines.insert(pos, "tally".to_string());
+    lines.push("tally".to_string());
+    for l in lines { out(l); }
+}
+
 // ---------------------------------------------------------------- executor
 
-fn exec(op: &str, args: &[&str], expected: &str) -> Option<Verdict> {
+fn exec_single(op: &str, args: &[&str], expected: &str) -> Option<Verdict> {
     match op {
         "lit" => {
             let id: usize = args[0].parse().ok()?;
@@ -481,7 +658,7 @@ fn exec(op: &str, args: &[&str], expected: &str) -> Option<Verdict> {
             let alt = args[0] == "1";
             let shape = parse_usize_list(args[1]);
             let prec = if args[4] == "none" { None } else { Some(args[4].parse::<usize>().ok()?) };
-            let (texts, shown, wrapped) = disp_subject(args[3], &shape, prec, alt, 2)?;
+            let (texts, shown, wrapped, side) = disp_subject(args[3], &shape, prec, alt, 2)?;
             if enc_list(&texts) != args[2] { return None; }
             let mut it = expected.splitn(3, ' ');
             let (_ok, mtext, back) = (it.next()?, it.next()?, it.next()?);
@@ -495,6 +672,10 @@ fn exec(op: &str, args: &[&str], expected: &str) -> Option<Verdict> {
                 return Some(Verdict::Mismatch { observed: format!("RECEIVER-DIVERGENCE Result wrapper renders `{}`, plain array `{}`", truncate(&wrapped, 600), truncate(&shown, 600)),
                     detail: format!("format `{{:{}{}}}`: model renders `{}`", if alt { "#" } else { "" }, prec.map_or(String::new(), |p| format!(".{p}")), truncate(&want_wrapped, 600)) });
             }
+            if !side.is_empty() {
+                return Some(Verdict::Mismatch { observed: format!("REPEAT-DIVERGENCE {side}; the first rendering was `{}`", truncate(&shown, 600)), detail: "equal arrays must have equal text forms, however they were built and however often they are rendered (the first rendering agrees with the model)".into() });
+            }
+            if texts.len() > 8192 { N_HUGE.fetch_add(1, Relaxed); }
             // parse back (plain form, element texts free of separators): independent bracket parser and the literal front end of the model
             let plain_elems = texts.iter().all(|t| !t.is_empty() && !t.contains(|c| "[],\"#".contains(c)) && !t.starts_with(' '));
             if !alt && plain_elems && !shape.is_empty() && !texts.is_empty() {
@@ -508,7 +689,7 @@ fn exec(op: &str, args: &[&str], expected: &str) -> Option<Verdict> {
             }
             if alt {
                 // pretty = plain modulo line breaks and indentation
-                let (_, plain, _) = disp_subject(args[3], &shape, prec, false, 1)?;
+                let (_, plain, _, _) = disp_subject(args[3], &shape, prec, false, 1)?;
                 let strip = |s: &str| s.chars().filter(|c| *c != ' ' && *c != '\n').collect::<String>();
                 if strip(&plain) != strip(&shown) { return Some(Verdict::Mismatch { observed, detail: format!("pretty `{}` vs plain `{}` differ beyond whitespace", shown, plain) }); }
             }
@@ -594,7 +775,63 @@ fn exec(op: &str, args: &[&str], expected: &str) -> Option<Verdict> {
     }
 }
 
+/// `seq`: the cases of the line back to back on this thread, each judged like a single case
+fn exec_seq(args: &[&str], expected: &str) -> Option<Verdict> {
+    let groups: Vec<&[&str]> = args.split(|t| *t == "|").collect();
+    let exps: Vec<&str> = expected.split(" ;; ").collect();
+    if groups.is_empty() || groups.len() != exps.len() { return None; }
+    let mut obs = vec![]; let mut open = false;
+    for (k, (g, e)) in groups.iter().zip(exps.iter()).enumerate() {
+        if g.is_empty() { return None; }
+        let shown_case = format!("{} {}", g[0], g[1..].iter().map(|a| truncate(a, 60)).collect::<Vec<_>>().join(" "));
+        match exec_single(g[0], &g[1..], e)? {
+            Verdict::Match(o) => obs.push(truncate(&o, 60)),
+            Verdict::Open(o) => { open = true; obs.push(truncate(&o, 60)); }
+            Verdict::Mismatch { observed, detail } => return Some(Verdict::Mismatch {
+                observed: format!("step {} of {} (`{}`): {}", k + 1, groups.len(), shown_case, observed),
+                detail: format!("the steps are executed back to back on one thread; {}", detail) }),
+        }
+    }
+    let text = truncate(&obs.join(" ;; "), 400);
+    Some(if open { Verdict::Open(text) } else { Verdict::Match(text) })
+}
+
+thread_local! {
+    /// the previous single case of this thread that was answered correctly: (op, args, expected, signature of its verdict)
+    static PREV: RefCell<Option<(String, Vec<String>, String, String)>> = const { RefCell::new(None) };
+}
+fn signature(v: &Verdict) -> Option<String> { match v { Verdict::Match(o) => Some(format!("match {o}")), Verdict::Open(o) => Some(format!("open {o}")), Verdict::Mismatch { .. } => None } }
+
+fn exec(op: &str, args: &[&str], expected: &str) -> Option<Verdict> {
+    if op == "tally" {
+        return Some(Verdict::Match(format!("ok tally so far: {} A-B-A re-runs; {} arrays rendered a second time and rebuilt; {} text forms of more than 8192 elements compared with the model", N_ABA.load(Relaxed), N_TWICE.load(Relaxed), N_HUGE.load(Relaxed))));
+    }
+    if op == "seq" { return exec_seq(args, expected); }
+    let mut verdict = exec_single(op, args, expected)?;
+    // A-B-A: the previous case A is run again after this case B and must answer exactly as before
+    let prev = PREV.with(|p| p.borrow_mut().take());
+    if let (Some((pop, pargs, pexp, psig)), Some(_)) = (prev, signature(&verdict)) {
+        if pop != op || pargs.iter().map(String::as_str).ne(args.iter().cloned()) {
+            let pa: Vec<&str> = pargs.iter().map(String::as_str).collect();
+            N_ABA.fetch_add(1, Relaxed);
+            let again = exec_single(&pop, &pa, &pexp);
+            let sig2 = again.as_ref().and_then(signature);
+            if sig2.as_deref() != Some(psig.as_str()) {
+                let now = match &again { Some(Verdict::Mismatch { observed, detail }) => format!("`{}` ({})", truncate(observed, 300), truncate(detail, 300)), Some(v) => truncate(&signature(v).unwrap_or_default(), 300), None => "<harness error>".into() };
+                verdict = Verdict::Mismatch { observed: format!("A-B-A-DIVERGENCE the preceding case `{} {}` answered `{}`; run again directly after this case it answers {}", pop, truncate(&pargs.join(" "), 300), truncate(&psig, 200), now),
+                    detail: "a call must not depend on the calls made before it (the case itself was answered as the model says)".into() };
+            }
+        }
+    }
+    if let Some(sig) = signature(&verdict) {
+        if args.iter().map(|a| a.len()).sum::<usize>() <= 20000 { PREV.with(|p| *p.borrow_mut() = Some((op.to_string(), args.iter().map(|a| a.to_string()).collect(), expected.to_string(), sig))); }
+    }
+    Some(verdict)
+}
+
 fn nontrivial(op: &str, args: &[&str]) -> bool {
+    if op == "seq" { return args.split(|t| *t == "|").any(|g| !g.is_empty() && nontrivial(g[0], &g[1..])); }
+    if op == "tally" { return false; }
     match op {
         "lit" => parse_usize_list(args[2]).iter().filter(|&&d| d > 1).count() >= 2,
         "disp" => parse_usize_list(args[1]).iter().filter(|&&d| d > 1).count() >= 2,
